@@ -8,7 +8,7 @@ print(vlib.build_harness('$V','qsx',plans.HARNESS_SOURCES))
 PY
 )
 EXE=$(echo "$EXE" | tail -1)
-D=$(mktemp -d /tmp/sweep.XXXXXX)
+mkdir -p /tmp/me; export VERIF_SCRATCH_BASE=/tmp/me; D=$(mktemp -d /tmp/me/sweep.XXXXXX)
 export ASAN_OPTIONS="detect_leaks=0:exitcode=86:allocator_may_return_null=1" UBSAN_OPTIONS="print_stacktrace=1:halt_on_error=1:exitcode=87"
 S=$(date +%s)
 for i in $(seq 0 15); do $EXE "$@" --shard $i/16 --out $D/o_$i.jsonl 2>$D/err_$i.txt & done
